@@ -1,11 +1,10 @@
 (* Cancel/TokK.v — the integer kernels of `CancellationToken` (src/zalsa_local.rs) and of the
    cancellation epoch (`Runtime::bump_cancellation_count`, `IterationStamp`), hand-transcribed.
 
-   SWAP POINT.  Cancel/Model.v uses only the names defined here.  When the translator's
-   `coq/gen/Kernels.v` provides `k_tok_*`, replace each body below by the generated kernel
-   (e.g. `Definition tok_cancel := k_tok_cancel.`) or replace the line
-   `From Salsa.Cancel Require Import TokK.` in Cancel/Model.v by an import of a Kern/ file
-   exporting the same names with the same types.  Expected types:
+   HAND-WRITTEN STAND-IN.  Cancel/TokKGen.v provides the same names, types and interface lemmas on
+   top of the translator's output (coq/gen/Kernels.v: the k_tok_, k_bump_count and k_stamp_ families).
+   Cancel/Model.v picks one of the two in its single `Require Export` line (default: TokKGen);
+   every other file of the layer gets the kernels through Cancel/Model.v.  Types:
      tok_cancel          : N -> N              fetch_or(CANCELLED_MASK): new byte
      tok_is_cancelled    : N -> bool           load & CANCELLED_MASK != 0
      tok_set_disabled    : N -> bool -> N      new byte of fetch_or(DISABLED)/fetch_and(!DISABLED)
@@ -16,8 +15,8 @@
      stamp_new           : N -> N -> N         u16::from_le_bytes([iteration, count])
      stamp_count         : N -> N              to_le_bytes()[1]
      stamp_iteration     : N -> N              to_le_bytes()[0]
-   The few bit lemmas the proofs need are at the end of this file; they are stated on the
-   names above so that they can be re-proved unchanged against the generated kernels. *)
+   The interface lemmas the proofs need are at the end of this file (identical statements in
+   TokKGen.v). *)
 From Coq Require Import NArith Bool Lia.
 Open Scope N_scope.
 
